@@ -367,7 +367,6 @@ func c02Engine(c *caseCtx, race bool) (res caseResult) {
 	return res
 }
 
-
 // pacedProc holds every message until the harness releases it.
 type pacedProc struct {
 	inflight int32
